@@ -390,6 +390,66 @@ static int protocol_mode() {
         if (gc->_subgrids[s]->_ionization_variables[0].get_mean_intensity(ION_H_n) != expect)
           bad << " folded-sum-wrong(original=" << s << ")";
       }
+    } else if ((w[0] == "foldcells" || w[0] == "pushcells") && w.size() == 2) {
+      // cell level of the fold / of "push the state to the copies": marker values in EVERY cell of every subgrid
+      const uint64_t sd = u64(w[1]);
+      const size_t n = gc->number_of_original_subgrids();
+      const bool fold = w[0] == "foldcells";
+      for (size_t i = 0; i < gc->_subgrids.size(); ++i) {
+        DensitySubGrid &g = *gc->_subgrids[i];
+        g.reset_intensities();
+        const long tot = g._number_of_cells[0] * g._number_of_cells[1] * g._number_of_cells[2];
+        for (long j = 0; j < tot; ++j) {
+          const double mk = double((131 * i + 17 * j + sd) % 997 + 1);
+          if (fold) {
+            for (int ion = 0; ion < NUMBER_OF_IONNAMES; ++ion)
+              g._ionization_variables[j].set_mean_intensity(ion, mk * (ion + 1));
+          } else {
+            g._ionization_variables[j].set_number_density(mk);
+            for (int ion = 0; ion < NUMBER_OF_IONNAMES; ++ion)
+              g._ionization_variables[j].set_ionic_fraction(ion, (mk + ion) / 2048.);
+          }
+        }
+      }
+      if (fold)
+        gc->update_original_counters();
+      else
+        gc->update_copy_properties();
+      std::cout << w[0] << " ";
+      for (size_t i = 0; i < gc->_subgrids.size(); ++i) {
+        DensitySubGrid &g = *gc->_subgrids[i];
+        const long tot = g._number_of_cells[0] * g._number_of_cells[1] * g._number_of_cells[2];
+        if (i)
+          std::cout << "|";
+        for (long j = 0; j < tot; ++j) {
+          const double v = fold ? g._ionization_variables[j].get_mean_intensity(ION_H_n)
+                                : g._ionization_variables[j].get_number_density();
+          std::cout << (j ? "," : "") << (long)v;
+          if (v != double((long)v))
+            bad << " non-integer-cell-value";
+        }
+      }
+      std::cout << "\n";
+      // oracle on the other fields: every ion's counter folded the same way / every copy equal to its original
+      for (size_t i = 0; i < gc->_subgrids.size() && bad.str().empty(); ++i) {
+        DensitySubGrid &g = *gc->_subgrids[i];
+        const long tot = g._number_of_cells[0] * g._number_of_cells[1] * g._number_of_cells[2];
+        for (long j = 0; j < tot && bad.str().empty(); ++j) {
+          if (fold) {
+            for (int ion = 1; ion < NUMBER_OF_IONNAMES; ++ion)
+              if (g._ionization_variables[j].get_mean_intensity(ion) !=
+                  (ion + 1) * g._ionization_variables[j].get_mean_intensity(ION_H_n))
+                bad << " counters-of-different-ions-folded-differently(subgrid=" << i << ",cell=" << j << ")";
+          } else if (i >= n) {
+            const IonizationVariables &o = gc->_subgrids[gc->_originals[i - n]]->_ionization_variables[j];
+            bool same = g._ionization_variables[j].get_number_density() == o.get_number_density();
+            for (int ion = 0; ion < NUMBER_OF_IONNAMES; ++ion)
+              same = same && g._ionization_variables[j].get_ionic_fraction(ion) == o.get_ionic_fraction(ion);
+            if (!same)
+              bad << " copy-differs-from-its-original-after-update_copy_properties(copy=" << i << ",cell=" << j << ")";
+          }
+        }
+      }
     } else {
       std::cout << "bad-op\n";
     }
